@@ -23,9 +23,17 @@
 (declare-fun seqmark ((Array Int Int) Int Int) Bool)
 ; axes: normax(v, r) is the ONNX normalisation of a possibly negative axis v against rank r
 ; (r = 0: identity). memb(d, off, n, r, x): x is one of the n normalised axes d[off..off+n).
-; (memb is uninterpreted; defining equation memb_def in lemmas.smt2)
+; (memb is uninterpreted; defining rules memb_elim / memb_intro in lemmas.smt2, membw = witness)
 ; nkept(d, off, n, r, i): how many positions x in [0, i) are NOT such an axis (uninterpreted;
 ; defining equations nkept_base / nkept_step in lemmas.smt2).
 (define-fun normax ((v Int) (r Int)) Int (ite (< v 0) (+ v r) v))
 (declare-fun memb ((Array Int Int) Int Int Int Int) Bool)
+(declare-fun membw ((Array Int Int) Int Int Int Int) Int)
 (declare-fun nkept ((Array Int Int) Int Int Int Int) Int)
+; nnot1(s, off, i): number of extents among s[off .. off+i) that are not 1 (uninterpreted;
+; defining equations nnot1_base / nnot1_step in lemmas.smt2)
+(declare-fun nnot1 ((Array Int Int) Int Int) Int)
+; marker requesting the instance of strictly_increasing_upper for the sequence (a, off, n) and bound b
+(declare-fun seqmarkb ((Array Int Int) Int Int Int) Bool)
+; marker requesting the instance of nkept_cong for two axis lists at position i
+(declare-fun nkcong ((Array Int Int) Int Int Int (Array Int Int) Int Int Int Int) Bool)
